@@ -1,8 +1,770 @@
 package main
 
-import "github.com/cosmos/cosmos-proto/internal/verifsim/simrun"
+// Pipeline scenario (property C07): who owns a piece of memory after a codec
+// call has returned. Producers encode messages and re-use them; a transport
+// with a small pool of recycled receive buffers carries the frames
+// (duplicated, reordered); consumers decode straight out of the pool buffer
+// and hand the message to handlers, which keep reading it while the buffer is
+// scribbled over and filled with the next frame. All of it runs as tasks under
+// the deterministic scheduler; the plan (values, APIs, duplication, reorder,
+// routing, handler programs) is drawn from the tape before the tasks start,
+// the interleaving while they run.
+//
+// Harness state shared between tasks lives in fixed arrays that are touched
+// only from go:norace functions; legitimate ownership transfers of buffers and
+// messages are made visible to the race detector with atomics, so that the
+// only unordered accesses left are the ones an aliasing defect creates.
+
+import (
+	"fmt"
+	"reflect"
+	"strings"
+	"sync/atomic"
+
+	"github.com/cosmos/cosmos-proto/internal/verifsim/simhook"
+	"github.com/cosmos/cosmos-proto/internal/verifsim/simrun"
+	"github.com/cosmos/cosmos-proto/internal/verifsim/simval"
+	"google.golang.org/protobuf/encoding/protojson"
+	"google.golang.org/protobuf/proto"
+	"google.golang.org/protobuf/reflect/protoreflect"
+	"google.golang.org/protobuf/runtime/protoiface"
+)
+
+const (
+	maxSlots    = 6
+	maxFrames   = 48
+	slotSize    = 1 << 16
+	maxHandlers = 4
+	maxCons     = 3
+)
+
+const (
+	waitFreeSlot = 1 + iota
+	waitInbox
+	waitMail
+	waitDirty
+)
+
+type framePlan struct {
+	id        int
+	typ       int
+	foreign   bool
+	av        protoreflect.Message
+	wire      []byte // foreign frames: pre-encoded
+	api       int    // 0 Marshal 1 MarshalAppend 2 methods 3 deterministic
+	prefixLen int
+	prefixCap int
+	consumer  int
+	bcast     int // second consumer decoding the same buffer, or -1
+	handler   int // -1: consumer digests it itself
+	handler2  int // second handler reading the same message, or -1
+	dup       bool
+	insertPos int // reorder: position among pending frames of the consumer's inbox
+	reuse     int // 0 none, 1 flip bytes in place, 2 reset+refill, 3 both
+}
+
+type sentFrame struct {
+	plan    *framePlan
+	slot    int
+	n       int
+	sum     uint64
+	control []byte // private copy of the frame bytes, read after the run only
+}
+
+type mailItem struct {
+	msg   proto.Message
+	frame int // index into sent
+	cons  int
+}
+
+type digestRec struct {
+	sent   int
+	cons   int
+	where  string
+	digest string
+}
+
+type world struct {
+	nSlots    int
+	slots     [maxSlots][]byte
+	slotState [maxSlots]int32 // 0 free 1 filled 2 dirty (released, not yet scribbled)
+	slotReads [maxSlots]int32 // readers still to come
+	slotSync  [maxSlots]uint32
+
+	sent  [2 * maxFrames]sentFrame
+	nSent int
+
+	inbox     [maxCons][2 * maxFrames]int
+	inboxN    [maxCons]int
+	inboxHead [maxCons]int
+	toConsume [maxCons]int
+
+	mail     [maxHandlers][4 * maxFrames]mailItem
+	mailN    [maxHandlers]int
+	mailHead [maxHandlers]int
+	mailSync [maxHandlers]uint32
+	toHandle [maxHandlers]int
+
+	framesLeft int32 // frames not yet fully consumed (recycler stops at 0)
+	poisoned   int
+	recycled   int
+}
+
+//go:norace
+func (w *world) ready(kind, arg int) bool {
+	switch kind {
+	case waitFreeSlot:
+		for i := 0; i < w.nSlots; i++ {
+			if w.slotState[i] == 0 {
+				return true
+			}
+		}
+		return false
+	case waitInbox:
+		return w.inboxHead[arg] < w.inboxN[arg] || w.toConsume[arg] <= 0
+	case waitMail:
+		return w.mailHead[arg] < w.mailN[arg] || w.toHandle[arg] <= 0
+	case waitDirty:
+		if w.framesLeft == 0 {
+			return true
+		}
+		for i := 0; i < w.nSlots; i++ {
+			if w.slotState[i] == 2 {
+				return true
+			}
+		}
+		return false
+	}
+	return true
+}
+
+//go:norace
+func (w *world) takeFreeSlot() int {
+	for i := 0; i < w.nSlots; i++ {
+		if w.slotState[i] == 0 {
+			w.slotState[i] = 1
+			return i
+		}
+	}
+	return -1
+}
+
+//go:norace
+func (w *world) takeDirtySlot() int {
+	for i := 0; i < w.nSlots; i++ {
+		if w.slotState[i] == 2 {
+			return i
+		}
+	}
+	return -1
+}
+
+//go:norace
+func (w *world) slotBuf(i, n int) []byte { return w.slots[i][:n:n] }
+
+//go:norace
+func (w *world) markFree(i int) { w.slotState[i] = 0; w.poisoned++ }
+
+//go:norace
+func (w *world) framesRemaining() int32 { return w.framesLeft }
+
+// enqueue registers a sent frame and puts it into the consumers' inboxes at
+// the planned position among the frames still pending there.
+//
+//go:norace
+func (w *world) enqueue(p *framePlan, slot, n int, sum uint64, control []byte) int {
+	id := w.nSent
+	w.sent[id] = sentFrame{plan: p, slot: slot, n: n, sum: sum, control: control}
+	w.nSent++
+	readers := int32(1)
+	w.insertInbox(p.consumer, id, p.insertPos)
+	if p.bcast >= 0 {
+		readers = 2
+		w.insertInbox(p.bcast, id, p.insertPos)
+	}
+	w.slotReads[slot] = readers
+	return id
+}
+
+//go:norace
+func (w *world) insertInbox(c, id, pos int) {
+	pending := w.inboxN[c] - w.inboxHead[c]
+	if pos > pending {
+		pos = pending
+	}
+	at := w.inboxN[c] - pos
+	for j := w.inboxN[c]; j > at; j-- {
+		w.inbox[c][j] = w.inbox[c][j-1]
+	}
+	w.inbox[c][at] = id
+	w.inboxN[c]++
+}
+
+//go:norace
+func (w *world) takeInbox(c int) (int, *sentFrame) {
+	if w.inboxHead[c] >= w.inboxN[c] {
+		return -1, nil
+	}
+	id := w.inbox[c][w.inboxHead[c]]
+	w.inboxHead[c]++
+	w.toConsume[c]--
+	return id, &w.sent[id]
+}
+
+// cancel is called by a producer that cannot send a planned frame.
+//
+//go:norace
+func (w *world) cancel(p *framePlan) {
+	copies := 1
+	if p.dup {
+		copies = 2
+	}
+	w.framesLeft -= int32(copies)
+	for _, cons := range []int{p.consumer, p.bcast} {
+		if cons < 0 {
+			continue
+		}
+		w.toConsume[cons] -= copies
+		for _, h := range []int{p.handler, p.handler2} {
+			if h >= 0 {
+				w.toHandle[h] -= copies
+			}
+		}
+	}
+}
+
+// releaseSlot is called by a consumer when its decode has returned.
+//
+//go:norace
+func (w *world) releaseSlot(slot int) {
+	w.slotReads[slot]--
+	if w.slotReads[slot] == 0 {
+		w.slotState[slot] = 2
+		w.framesLeft--
+	}
+}
+
+//go:norace
+func (w *world) postMail(h int, it mailItem) {
+	w.mail[h][w.mailN[h]] = it
+	w.mailN[h]++
+}
+
+//go:norace
+func (w *world) takeMail(h int) (mailItem, bool) {
+	if w.mailHead[h] >= w.mailN[h] {
+		return mailItem{}, false
+	}
+	it := w.mail[h][w.mailHead[h]]
+	w.mailHead[h]++
+	w.toHandle[h]--
+	return it, true
+}
+
+func checksum(b []byte) uint64 {
+	h := uint64(1469598103934665603)
+	for _, x := range b {
+		h ^= uint64(x)
+		h *= 1099511628211
+	}
+	return h ^ uint64(len(b))<<40
+}
+
+// flipBytesInPlace inverts every byte of every []byte reachable in the message
+// struct (the producer re-using its own message after Marshal returned).
+func flipBytesInPlace(v reflect.Value, depth int) int {
+	if depth > 30 {
+		return 0
+	}
+	n := 0
+	switch v.Kind() {
+	case reflect.Pointer, reflect.Interface:
+		if !v.IsNil() {
+			n += flipBytesInPlace(v.Elem(), depth+1)
+		}
+	case reflect.Struct:
+		for i := 0; i < v.NumField(); i++ {
+			sf := v.Type().Field(i)
+			if sf.Name == "state" || sf.Name == "sizeCache" || sf.PkgPath != "" && sf.Name != "unknownFields" {
+				continue
+			}
+			n += flipBytesInPlace(v.Field(i), depth+1)
+		}
+	case reflect.Slice:
+		if v.Type().Elem().Kind() == reflect.Uint8 {
+			b := v.Bytes()
+			for i := range b {
+				b[i] ^= 0xff
+			}
+			return len(b)
+		}
+		for i := 0; i < v.Len(); i++ {
+			n += flipBytesInPlace(v.Index(i), depth+1)
+		}
+	case reflect.Map:
+		it := v.MapRange()
+		for it.Next() {
+			n += flipBytesInPlace(it.Value(), depth+1)
+		}
+	}
+	return n
+}
+
+type taskLog struct {
+	digests []digestRec
+	errs    []string
+	notes   []string
+}
+
+func (l *taskLog) errf(format string, a ...interface{}) {
+	l.errs = append(l.errs, fmt.Sprintf(format, a...))
+}
+
+type handlerAction struct {
+	kind int // 0 digest, 1.. read-only op
+}
+
+const numHandlerOps = 8
+
+func handlerOp(m proto.Message, kind int) {
+	switch kind {
+	case 1:
+		proto.Size(m)
+	case 2:
+		proto.Marshal(m)
+	case 3:
+		proto.MarshalOptions{Deterministic: true}.Marshal(m)
+	case 4:
+		proto.Equal(m, m)
+	case 5:
+		simval.Canon(m.ProtoReflect()) // Has/Get/Range/list and map views
+	case 6:
+		protojson.Marshal(m)
+	case 7:
+		m.ProtoReflect().Range(func(fd protoreflect.FieldDescriptor, v protoreflect.Value) bool { return true })
+	}
+}
 
 func runPipeline(c *simrun.Ctx) *simrun.Violation {
-	c.EngineError = "pipeline scenario not built yet"
+	t := c.T
+	st := c.Stats
+	w := &world{}
+	w.nSlots = 2 + t.Draw("slots", maxSlots-1)
+	for i := 0; i < w.nSlots; i++ {
+		w.slots[i] = make([]byte, slotSize)
+	}
+	nProd := 1 + t.Draw("producers", 3)
+	nCons := 1 + t.Draw("consumers", maxCons)
+	nHand := 1 + t.Draw("handlers", maxHandlers)
+	cfg := simval.GenCfg{MaxDepth: 1 + t.Draw("maxdepth", 2), MaxFields: 2 + t.Draw("maxfields", 6), MaxMapEntries: 2 + t.Draw("maxentries", 4), MaxListLen: 1 + t.Draw("maxlist", 3), Unknown: true}
+
+	// ---- plan (all draws happen here, before any task runs)
+	plans := make([][]*framePlan, nProd)
+	nFrames := 0
+	for p := 0; p < nProd; p++ {
+		n := 1 + t.Draw("frames", 4)
+		for k := 0; k < n && nFrames < maxFrames/2; k++ {
+			fp := &framePlan{id: nFrames, typ: t.Draw("type", len(corpus)), bcast: -1, handler: -1, handler2: -1}
+			md := corpus[fp.typ].ProtoReflect().Descriptor()
+			fp.av = simval.Gen(t, md, cfg)
+			fp.foreign = t.Chance("foreign", 1, 3)
+			if fp.foreign {
+				fp.wire = (&simval.EncodeOpts{T: t, Shuffle: true}).Encode(fp.av)
+			}
+			fp.api = t.Draw("api", 4)
+			fp.prefixLen = t.Draw("prefixlen", 6)
+			fp.prefixCap = fp.prefixLen + []int{0, 1, 16, 4096}[t.Draw("prefixcap", 4)]
+			fp.consumer = t.Draw("consumer", nCons)
+			if nCons > 1 && t.Chance("broadcast", 1, 4) {
+				fp.bcast = (fp.consumer + 1 + t.Draw("bcast", nCons-1)) % nCons
+			}
+			if t.Chance("to-handler", 3, 4) {
+				fp.handler = t.Draw("handler", nHand)
+				if nHand > 1 && t.Chance("two-handlers", 1, 4) {
+					fp.handler2 = (fp.handler + 1 + t.Draw("handler2", nHand-1)) % nHand
+				}
+			}
+			fp.dup = t.Chance("dup", 1, 5)
+			fp.insertPos = t.Draw("reorder", 4)
+			fp.reuse = t.Draw("reuse", 4)
+			plans[p] = append(plans[p], fp)
+			nFrames++
+		}
+	}
+	// expected consumption counts
+	total := 0
+	for _, pl := range plans {
+		for _, fp := range pl {
+			copies := 1
+			if fp.dup {
+				copies = 2
+			}
+			total += copies
+			for _, cons := range []int{fp.consumer, fp.bcast} {
+				if cons < 0 {
+					continue
+				}
+				w.toConsume[cons] += copies
+				for _, h := range []int{fp.handler, fp.handler2} {
+					if h >= 0 {
+						w.toHandle[h] += copies
+					}
+				}
+			}
+		}
+	}
+	w.framesLeft = int32(total)
+	handlerProg := make([][]handlerAction, nHand)
+	for h := range handlerProg {
+		n := 2 + t.Draw("hactions", 6)
+		for k := 0; k < n; k++ {
+			handlerProg[h] = append(handlerProg[h], handlerAction{kind: t.Draw("haction", numHandlerOps)})
+		}
+	}
+	c.Tracef("pipeline: %d producers, %d consumers, %d handlers, %d buffers, %d frames (%d deliveries)", nProd, nCons, nHand, w.nSlots, nFrames, total)
+
+	sched := simhook.NewSched()
+	sched.MaxSteps = 600 + t.Draw("maxsteps", 1200)
+	sched.Ready = w.ready
+	// map iteration order inside every task is decided by the tape as well
+	ordSeed := uint64(t.Draw("ordseed", 1<<30))
+	ordMode := t.Draw("ordmode", simhook.OrdModes)
+	taskNo := 0
+	taskOrd := func() *simhook.OrderCtl {
+		taskNo++
+		return &simhook.OrderCtl{Seed: simhook.Mix(ordSeed, uint64(taskNo)), Mode: ordMode, NoSiteStats: true}
+	}
+	logs := []*taskLog{}
+	newLog := func() *taskLog { l := &taskLog{}; logs = append(logs, l); return l }
+
+	// ---- producers
+	for p := 0; p < nProd; p++ {
+		pl := plans[p]
+		lg := newLog()
+		ord := taskOrd()
+		sched.Add(func(_ *simhook.Task) {
+			simhook.SetTaskOrd(ord)
+			dead := simhook.NewReplayTape(nil)
+			var m proto.Message
+			for _, fp := range pl {
+				var frame []byte
+				if fp.foreign {
+					frame = fp.wire
+				} else {
+					mt := corpus[fp.typ].ProtoReflect().Type()
+					if m == nil || m.ProtoReflect().Descriptor() != mt.Descriptor() || fp.reuse < 2 {
+						m = mt.New().Interface()
+					} else {
+						proto.Reset(m) // re-use the same object for the next value
+					}
+					if _, err := (&simval.History{T: dead}).BuildReflectInto(m.ProtoReflect(), fp.av); err != nil {
+						lg.notes = append(lg.notes, "build failed: "+err.Error())
+						w.cancel(fp)
+						continue
+					}
+					var err error
+					prefix := make([]byte, fp.prefixLen, fp.prefixCap)
+					for i := range prefix {
+						prefix[i] = 0xA5
+					}
+					switch fp.api {
+					case 0:
+						frame, err = proto.Marshal(m)
+					case 1:
+						var out []byte
+						out, err = proto.MarshalOptions{}.MarshalAppend(prefix, m)
+						if err == nil {
+							frame = out[len(prefix):]
+						}
+					case 2:
+						var out protoiface.MarshalOutput
+						out, err = m.ProtoReflect().ProtoMethods().Marshal(protoiface.MarshalInput{Message: m.ProtoReflect()})
+						frame = out.Buf
+					case 3:
+						frame, err = proto.MarshalOptions{Deterministic: true}.Marshal(m)
+					}
+					if err != nil {
+						lg.notes = append(lg.notes, "marshal failed: "+err.Error())
+						w.cancel(fp)
+						continue
+					}
+				}
+				if len(frame) > slotSize {
+					lg.notes = append(lg.notes, "frame too large, skipped")
+					w.cancel(fp)
+					continue
+				}
+				copies := 1
+				if fp.dup {
+					copies = 2
+				}
+				frameSum := checksum(frame)
+				for k := 0; k < copies; k++ {
+					simhook.WaitOn(waitFreeSlot, 0)
+					slot := w.takeFreeSlot()
+					atomic.LoadUint32(&w.slotSync[slot]) // acquire: whoever recycled the buffer
+					buf := w.slotBuf(slot, len(frame))
+					copy(buf, frame)
+					control := append([]byte{}, frame...)
+					atomic.AddUint32(&w.slotSync[slot], 1) // release: buffer handed to the consumers
+					w.enqueue(fp, slot, len(frame), frameSum, control)
+					simhook.Yield(-2)
+				}
+				if !fp.foreign {
+					// the producer re-uses its message while the frame is in flight
+					if fp.reuse&1 == 1 {
+						flipBytesInPlace(reflect.ValueOf(m), 0)
+					}
+					if fp.reuse >= 2 {
+						proto.Reset(m)
+					}
+					simhook.Yield(-2)
+					if checksum(frame) != frameSum {
+						lg.errf("C07:marshal-output-changed-when-message-was-reused|frame %d type %s api %d reuse %d", fp.id, corpus[fp.typ].ProtoReflect().Descriptor().FullName(), fp.api, fp.reuse)
+					}
+				}
+			}
+		})
+	}
+	// ---- consumers
+	for ci := 0; ci < nCons; ci++ {
+		ci := ci
+		lg := newLog()
+		ord := taskOrd()
+		sched.Add(func(_ *simhook.Task) {
+			simhook.SetTaskOrd(ord)
+			for {
+				simhook.WaitOn(waitInbox, ci)
+				id, sf := w.takeInbox(ci)
+				if sf == nil {
+					return // nothing more will arrive
+				}
+				atomic.LoadUint32(&w.slotSync[sf.slot]) // acquire: the sender filled the buffer
+				buf := w.slotBuf(sf.slot, sf.n)
+				msg := corpus[sf.plan.typ].ProtoReflect().Type().New().Interface()
+				err := proto.Unmarshal(buf, msg)
+				simhook.Yield(-2)
+				if checksum(buf) != sf.sum {
+					lg.errf("C07:unmarshal-modified-its-input|frame %d type %s", sf.plan.id, msg.ProtoReflect().Descriptor().FullName())
+				}
+				atomic.AddUint32(&w.slotSync[sf.slot], 1) // release: done with the buffer
+				w.releaseSlot(sf.slot)
+				if err != nil {
+					lg.digests = append(lg.digests, digestRec{id, ci, "consumer", "unmarshal-error: " + err.Error()})
+					msg = nil
+				} else {
+					d, derr := simval.CanonStruct(msg)
+					if derr != nil {
+						d = "walk-error: " + derr.Error()
+					}
+					lg.digests = append(lg.digests, digestRec{id, ci, "consumer, right after Unmarshal", d})
+				}
+				for _, h := range []int{sf.plan.handler, sf.plan.handler2} {
+					if h < 0 {
+						continue
+					}
+					w.postMail(h, mailItem{msg: msg, frame: id, cons: ci})
+					atomic.AddUint32(&w.mailSync[h], 1) // release: message handed to the handler
+				}
+				simhook.Yield(-2)
+			}
+		})
+	}
+	// ---- handlers
+	for hi := 0; hi < nHand; hi++ {
+		hi := hi
+		lg := newLog()
+		prog := handlerProg[hi]
+		ord := taskOrd()
+		sched.Add(func(_ *simhook.Task) {
+			simhook.SetTaskOrd(ord)
+			type held struct {
+				it mailItem
+			}
+			var holding []held
+			for {
+				simhook.WaitOn(waitMail, hi)
+				it, ok := w.takeMail(hi)
+				if !ok {
+					break // nothing more will arrive
+				}
+				atomic.LoadUint32(&w.mailSync[hi]) // acquire: the consumer finished decoding
+				if it.msg == nil {
+					continue
+				}
+				holding = append(holding, held{it})
+				// act on every message still held (older ones have seen their
+				// buffer recycled in the meantime)
+				for _, hd := range holding {
+					for ai, a := range prog {
+						if a.kind == 0 {
+							d, derr := simval.CanonStruct(hd.it.msg)
+							if derr != nil {
+								d = "walk-error: " + derr.Error()
+							}
+							lg.digests = append(lg.digests, digestRec{hd.it.frame, hd.it.cons, fmt.Sprintf("handler %d action %d", hi, ai), d})
+						} else {
+							before := simval.TakeSnapshot(hd.it.msg)
+							handlerOp(hd.it.msg, a.kind)
+							after := simval.TakeSnapshot(hd.it.msg)
+							if before.Hash != after.Hash {
+								lg.errf("C07:read-only-call-changed-the-message-struct|op %d on frame %d: %v", a.kind, hd.it.frame, before.Diff(after))
+							}
+						}
+						simhook.Yield(-2)
+					}
+				}
+				if len(holding) > 3 {
+					holding = holding[1:]
+				}
+			}
+			// final look at everything still held
+			for _, hd := range holding {
+				d, derr := simval.CanonStruct(hd.it.msg)
+				if derr != nil {
+					d = "walk-error: " + derr.Error()
+				}
+				lg.digests = append(lg.digests, digestRec{hd.it.frame, hd.it.cons, fmt.Sprintf("handler %d at end of run", hi), d})
+			}
+		})
+	}
+	// ---- recycler: scribbles over released buffers before they are re-used
+	sched.Add(func(_ *simhook.Task) {
+		for {
+			simhook.WaitOn(waitDirty, 0)
+			slot := w.takeDirtySlot()
+			if slot < 0 {
+				if w.framesRemaining() == 0 {
+					return
+				}
+				continue
+			}
+			atomic.LoadUint32(&w.slotSync[slot]) // acquire: every consumer released it
+			buf := w.slots[slot]
+			for i := range buf[:4096] {
+				buf[i] = 0xDB
+			}
+			atomic.AddUint32(&w.slotSync[slot], 1) // release: free for the next sender
+			w.markFree(slot)
+			simhook.Yield(-2)
+		}
+	})
+
+	sched.Choose = func(runnable []int, last []int) (int, int) {
+		return runnable[t.Draw("task", len(runnable))], quanta[t.Draw("quantum", len(quanta))]
+	}
+	var schedule []string
+	sched.AfterStep = func(step, task, site int) bool {
+		if len(schedule) < 200 {
+			schedule = append(schedule, fmt.Sprintf("t%d@%s", task, simhook.SiteName(site)))
+		}
+		return true
+	}
+	newRaceReports()
+	sched.Run()
+	st.Add("simulations", 1)
+	st.Add("scheduler_steps", int64(sched.Steps))
+	st.Add("fault_context_switches", int64(sched.Switches))
+	st.Max("max_steps_in_a_run", int64(sched.Steps))
+	if sched.Switches >= 4 {
+		st.Add("runs_with_4plus_preemptions", 1)
+	}
+	c.Observe(sched.SeqHash, uint64(sched.Steps))
+	c.Result = sched.SeqHash
+	c.Trace = append(c.Trace, "schedule: "+strings.Join(schedule, " "))
+	if sched.Deadlocked {
+		c.EngineError = "pipeline deadlocked (harness bug): " + strings.Join(schedule, " ")
+		return nil
+	}
+	for i, tk := range sched.Tasks() {
+		if tk.Panic != nil {
+			c.EngineError = fmt.Sprintf("pipeline task %d panicked (harness bug or a decoder/encoder panic, which is another property's matter): %v", i, tk.Panic)
+			return nil
+		}
+	}
+	// ---- oracles over the recorded history
+	races := newRaceReports()
+	if strings.Contains(races, "DATA RACE") {
+		return &simrun.Violation{Class: "C07:data-race-between-buffer-owner-and-message-reader", Detail: map[string]interface{}{"race_report": clip(races, 6000), "plan": describePlan(plans)}}
+	}
+	for _, lg := range logs {
+		for _, e := range lg.errs {
+			parts := strings.SplitN(e, "|", 2)
+			return &simrun.Violation{Class: parts[0], Detail: map[string]interface{}{"what": parts[1], "plan": describePlan(plans)}}
+		}
+	}
+	// conservation: every look at a held message equals the control decode of
+	// the very same frame bytes (copied privately at send time)
+	control := map[int]string{}
+	for i := 0; i < w.nSent; i++ {
+		sf := &w.sent[i]
+		if checksum(sf.control) != sf.sum {
+			c.EngineError = "control copy changed (harness bug)"
+			return nil
+		}
+		cm := corpus[sf.plan.typ].ProtoReflect().Type().New().Interface()
+		if err := proto.Unmarshal(sf.control, cm); err != nil {
+			control[i] = "unmarshal-error: " + err.Error()
+			continue
+		}
+		d, derr := simval.CanonStruct(cm)
+		if derr != nil {
+			d = "walk-error: " + derr.Error()
+		}
+		control[i] = d
+		st.Add("frames_delivered", 1)
+		if sf.plan.foreign {
+			st.Add("frames_foreign_with_unknown_and_shuffled_records", 1)
+		}
+	}
+	looks := 0
+	for _, lg := range logs {
+		for _, d := range lg.digests {
+			looks++
+			if d.digest != control[d.sent] {
+				sf := &w.sent[d.sent]
+				return &simrun.Violation{Class: "C07:held-message-differs-from-control-decode", Detail: map[string]interface{}{
+					"type": string(corpus[sf.plan.typ].ProtoReflect().Descriptor().FullName()), "frame": sf.plan.id, "where": d.where, "consumer": d.cons,
+					"held": clip(d.digest, 2000), "control": clip(control[d.sent], 2000), "frame_hex": clip(fmt.Sprintf("%x", sf.control), 1200), "plan": describePlan(plans)}}
+			}
+		}
+	}
+	st.Add("looks_at_held_messages", int64(looks))
+	st.Add("fault_buffer_scribbled_after_release", int64(w.poisoned))
+	for _, pl := range plans {
+		for _, fp := range pl {
+			if fp.dup {
+				st.Add("fault_frame_duplicated", 1)
+			}
+			if fp.insertPos > 0 {
+				st.Add("fault_frame_reorder_requested", 1)
+			}
+			if fp.bcast >= 0 {
+				st.Add("fault_same_buffer_decoded_by_two_consumers", 1)
+			}
+			if fp.handler2 >= 0 {
+				st.Add("fault_message_shared_by_two_handlers", 1)
+			}
+			if !fp.foreign && fp.reuse > 0 {
+				st.Add("fault_producer_reused_message_after_marshal", 1)
+			}
+		}
+	}
+	if w.poisoned > 0 && looks > 0 {
+		st.Add("probe_runs_with_recycle_and_later_look", 1)
+	}
+	c.Sample = map[string]interface{}{"plan": describePlan(plans), "steps": sched.Steps, "context_switches": sched.Switches, "looks_at_held_messages": looks, "buffers_scribbled": w.poisoned,
+		"schedule_prefix": clip(strings.Join(schedule, " "), 500)}
 	return nil
+}
+
+func describePlan(plans [][]*framePlan) []string {
+	var out []string
+	for p, pl := range plans {
+		for _, fp := range pl {
+			out = append(out, fmt.Sprintf("producer %d frame %d: type=%s foreign=%v api=%d prefix=%d/%d -> consumer %d (broadcast %d) handlers %d,%d dup=%v reorder=%d reuse=%d value=%s",
+				p, fp.id, corpus[fp.typ].ProtoReflect().Descriptor().FullName(), fp.foreign, fp.api, fp.prefixLen, fp.prefixCap, fp.consumer, fp.bcast, fp.handler, fp.handler2, fp.dup, fp.insertPos, fp.reuse, clip(simval.Canon(fp.av), 300)))
+		}
+	}
+	return out
 }
